@@ -757,6 +757,24 @@ fn gen(thorough: bool, seed: u64) -> Vec<String> {
         let kind = if i % 9 == 4 { "sopes" } else { "sop" };
         out.push(format!("mip {} {} {} {} {}", kind, a, x, o, tabs.join(" ")));
     }
+    // every cost triple of {1,2,3}^3 (the property's quantifier) on a few functions where the costs
+    // decide the shape: XOR3, MAJ, AND-OR, and two outputs sharing an XOR2 cube (seed C18-c: a
+    // pruning of the exclusive candidates that is wrong for one triple only)
+    for a in 1..=3i64 {
+        for x in 1..=3i64 {
+            for o in 1..=3i64 {
+                for k in kinds {
+                    if thorough || (a + 2 * x + 3 * o) % 2 == 0 || k == "sopes" {
+                        out.push(format!("mip {} {} {} {} 3:96", k, a, x, o));
+                        out.push(format!("mip {} {} {} {} 3:e8", k, a, x, o));
+                        out.push(format!("mip {} {} {} {} 2:6 2:6", k, a, x, o));
+                    }
+                }
+                out.push(format!("mipilp sopes {} {} {} 3:96", a, x, o));
+                out.push(format!("mipilp sopes {} {} {} 2:6 2:e", a, x, o));
+            }
+        }
+    }
     // the integer programme itself (hook verif_last_ilp) against the model's, constraint by
     // constraint: every function of n <= 2, lists of one to three functions of n <= 4
     for n in 0..=2usize {
